@@ -28,6 +28,9 @@ static rc::Gen<Op> c02_op()
 	    {1, op_gen(ADVANCE, zero(), rng(0, 13), zero(), zero(), zero(), zero(), nojoin())},
 	    {2, op_gen(CONNECT, zero(), rng(0, 3), rng(0, 4), zero(), zero(), zero(), nojoin())},
 	    {3, op_gen(END, conn, rng(0, 3), zero(), zero(), zero(), zero(), jn)},
+	    // a requester that stops reading while it keeps sending requests (d = 1: expanded by c02_gen), and one that catches up
+	    {1, op_gen(WPLAN, conn, rng(0, 3), rng(4, 40), zero(), rc::gen::just(1), zero(), nojoin())},
+	    {1, op_gen(DRAIN, conn, zero(), zero(), zero(), zero(), zero(), nojoin())},
 	});
 }
 
@@ -37,7 +40,16 @@ static rc::Gen<Scenario> c02_gen()
 		Scenario sc;
 		{ Op o; o.kind = CONNECT; o.a = 0; sc.ops.push_back(o); }
 		for (int t : transports) { Op o; o.kind = CONNECT; o.a = t; sc.ops.push_back(o); }
-		for (auto &o : ops) sc.ops.push_back(o);
+		for (auto &o : ops) {
+			if (o.kind == WPLAN && o.d == 1) {
+				// the kernel takes nothing (or only a few bytes) from now on; the responses pile up in the daemon's write buffer until
+				// one does not fit: from then on the connection must end - a response may not be dropped while the connection lives on
+				{ Op w; w.kind = WPLAN; w.conn = o.conn; w.v = {o.a == 0 ? 2 : 1 + 4 * (o.a * 7)}; sc.ops.push_back(w); }
+				for (int i = 0; i < o.b; i++) { Op r; r.kind = INFO; r.conn = o.conn; r.idm = (i % 3) ? ID_NUM : ID_STR; sc.ops.push_back(r); }
+				continue;
+			}
+			sc.ops.push_back(o);
+		}
 		// conclude what is in flight so that every accepted request has had its answer
 		{ Op o; o.kind = ADVANCE; o.a = 10; sc.ops.push_back(o); }
 		{ Op o; o.kind = ADVANCE; o.a = 10; sc.ops.push_back(o); }
@@ -50,7 +62,8 @@ int main(int argc, char **argv)
 {
 	Campaign c;
 	c.prop = "C02";
-	c.rules = {"model/", "output/", "serve/"};
+	c.opt.gap_check = true;
+	c.rules = {"C02/", "model/", "output/", "serve/"};
 	c.opt.baseline_check = false;
 	c.opt.hygiene_check = false;
 	c.opt.replica_check = false;
